@@ -271,7 +271,62 @@ func fit(g *Gen, e eid, H, V int64, left float64, sid bool) eid {
 }
 
 // an ancestor or a descendant of e (nested inputs)
+// nearMiss moves a relative off its partner on ONE axis by a step or two (kept inside the grid): nested on the other axes, a neighbour
+// on this one — the arrangement in which a containment test that mixes up the axes (or their zoom differences) goes wrong
+func nearMiss(g *Gen, r eid) eid {
+	d := 1 + g.Int63n(2)
+	if g.Chance(0.5) {
+		d = -d
+	}
+	switch g.Intn(4) {
+	case 0:
+		if w := int64(1) << uint(r.h); r.x+d >= 0 && r.x+d < w {
+			r.x += d
+		}
+	case 1:
+		if w := int64(1) << uint(r.h); r.y+d >= 0 && r.y+d < w {
+			r.y += d
+		}
+	default:
+		if w := int64(1) << uint(r.v); r.f+d >= -w && r.f+d < w {
+			r.f += d
+		}
+	}
+	return r
+}
+
+// sameNumerals keeps the index numerals of e and changes one zoom field by 1..3 (only if the numerals are still inside the grid of the new
+// zoom): on the other axis the two IDs are the same cell, on this one they are whatever the numerals happen to be at the two zooms
+func sameNumerals(g *Gen, e eid) eid {
+	r := e
+	d := 1 + g.Int63n(3)
+	if g.Chance(0.4) {
+		d = -d
+	}
+	if g.Chance(0.6) {
+		if v := e.v + d; v >= 0 && v <= 35 && e.f >= -(int64(1)<<uint(v)) && e.f < int64(1)<<uint(v) {
+			r.v = v
+		}
+	} else {
+		if h := e.h + d; h >= 0 && h <= 35 && e.x < int64(1)<<uint(h) && e.y < int64(1)<<uint(h) {
+			r.h = h
+		}
+	}
+	return r
+}
+
 func relative(g *Gen, e eid) eid {
+	if g.Chance(0.2) {
+		return sameNumerals(g, e)
+	}
+	r := relativeExact(g, e)
+	if g.Chance(0.3) {
+		r = nearMiss(g, r)
+	}
+	return r
+}
+
+func relativeExact(g *Gen, e eid) eid {
 	r := e
 	if g.Chance(0.5) { // ancestor
 		a, b := g.Int63n(e.h+1), g.Int63n(e.v+1)
@@ -352,7 +407,11 @@ func mkListM(g *Gen, H, V int64, budget float64, sid, refine bool, tags *[]strin
 			*tags = append(*tags, "dup")
 			isOverlap = true
 		case len(ids) > 0 && (g.Chance(pn) || forced) && !sid:
-			e = relative(g, ids[g.Intn(len(ids))])
+			base := ids[g.Intn(len(ids))]
+			if g.Chance(0.5) { // directly after its partner (what a "same as the previous ID" shortcut would look at)
+				base = ids[len(ids)-1]
+			}
+			e = relative(g, base)
 			if refine { // keep it at or below the target zooms
 				for e.h > H {
 					e.h, e.x, e.y = e.h-1, e.x>>1, e.y>>1
